@@ -165,6 +165,7 @@ empty @is_you(string s) { int k = 9; byte[] keep = ['k', 'p']; write(s); write('
     for n in lens:
         text = ''.join(chr(33 + (i * 7) % 90) for i in range(n))
         items.append(runner.Item(('wstr', n), strprog, [text], s=80, meta={'family': 'write_string'}))
+    items.append(runner.Item(('wstr', 'long_lit'), 'empty @is_you() { write("%s\\n%s\\"%s\\\\%s\\x01%s"); writeln("%s\\t"); write("%s\\n"); }' % ('a' * 70, 'b' * 69, 'c' * 70, 'd' * 68, 'e' * 30, 'f' * 71, 'g' * 143), [], s=80, meta={'family': 'write_string'}))
     items.append(runner.Item(('wstr', 'utf8'), strprog, ['hé 世界 \U0001F30E'], s=80, meta={'family': 'write_string'}))
     arrprog = '''empty show(const byte[] c, byte[] m) { write(c); m[0] = 'Z'; writeln(c); }
 empty @is_you(byte[] a) { int k = 4; write(a); write('|'); writeln(a); show(a, a); byte[] al = a; al[0] = 'Y'; write(a); write(k); }'''
@@ -390,6 +391,11 @@ empty @is_you(int a, int fi, int ti) { bool F = fi is bool; bool T = ti is bool;
   write((side(a) > 0) and F); write((side(a) > 0) or T); write((arr[a] > 0) and F); write(g);
   if ((side(a) == 1) and F) { write('x'); } else { write('y'); } while ((side(a) == 7) or (T and F)) { write('z'); } write(g); }''',
      [['0', '0', '1'], ['1', '0', '1'], ['5', '0', '1']]),
+    ('spec_literal_left', '''int g = 0; int side(int v) { g += 1; write('s'); return v; }
+empty @is_you(int b) { int l1 = 5 ?? side(b); write(l1); write(g); write(3 ?? side(b + 1)); write(g); byte q = 'a' ?? (side(b) is byte); write(q); bool t = true ?? (side(b) > 0); write(t); write(g); }''',
+     '''int g = 0; int side(int v) { g += 1; write('s'); return v; }
+empty @is_you(int b, int five, int three, byte ca, int tr) { bool tt = tr is bool; int l1 = five ?? side(b); write(l1); write(g); write(three ?? side(b + 1)); write(g); byte q = ca ?? (side(b) is byte); write(q); bool t = tt ?? (side(b) > 0); write(t); write(g); }''',
+     [['0', '5', '3', '97', '1'], ['5', '5', '3', '97', '1'], ['2', '5', '3', '97', '1']]),
     ('known_lengths', '''const int[] G = [1, 2, 3]; byte[] H = [7, 8]; string S = "four";
 empty @is_you(int a) { const int[] l = [5, 6, 7, 8]; write((G is bool) is int); write(not (G is bool)); write((G is bool) == true); write((l is bool) is int); write((H is bool) is int);
   bool[] pack = [G is bool, l is bool, "abc" is bool, [1, 2] is bool]; for (int i = 0; i < 4; i += 1) { write(pack[i] is int); } write((S is bool) is int); write(("abcd" is bool) is int);
